@@ -88,6 +88,18 @@ def engineJudge (prop eng : String) (args obs : List String) : Bool :=
     (match args.getLast?, obs with
      | some e, [g] => e.startsWith "exp=" && g.startsWith "got=" && (e.drop 4).toString == (g.drop 4).toString
      | _, _ => false)
+  | "rderr" =>
+    -- C20 monitor: a body reader that fails before the limit is reached must make the call report an error
+    -- (whatever the failure wraps); past the limit the reader is not consulted any more
+    (match args with
+     | [_, lim, _, _, cut, _] =>
+       (match lim.toNat?, cut.toNat? with
+        | some l, some c => !obs.contains "PANIC" && (c ≥ l || obs.contains "err=1")
+        | _, _ => false)
+     | _ => false)
+  | "twolog" =>
+    -- C13 monitor: with several WAFs alive, every audit record is in the file of the WAF that created the transaction
+    obs == ["ok=1"]
   | "tfwrap" =>
     -- C13 monitor: after 65536 chains registered by other WAFs every rule still sees its own list's value
     (match obs with
